@@ -4,4 +4,4 @@ PAIRS = [v for k, v in A.items()]
 # interior (aligned) pointers are mapped back to their page through the slice back-offsets that the span layer writes
 import seg_common, page_common
 S = seg_common.pairs(); PG = page_common.pairs()
-PAIRS += seg_common.span_allocate_pairs() + [S["span_page_of"], S["span_free"], PG["set_has_aligned"]]
+PAIRS += seg_common.span_allocate_pairs() + [S["span_page_of"], S["span_free"], S["slice_split"], PG["set_has_aligned"]]
